@@ -212,6 +212,14 @@ def _judge(case, res, exc, n_models):
         # the evaluator has no opinion on such a term (it is not a distribution), so it must be rejected here
         return (f"estimand {expr} contains the term {bad} whose subscript set gives one variable both values: it denotes "
                 "nothing, so it cannot equal P(event)"), "illformed"
+    if not single_world(expr):
+        # the property is about ESTIMANDS: expressions over interventional distributions, whose "intervention subscripts" the
+        # reading convention speaks of.  A term whose variables carry different subscript sets is a joint distribution over
+        # several worlds -- the very kind of quantity ID* exists to eliminate (its value may well equal P(event): so does the
+        # event itself).  Never produced by the unchanged code (theorem idstar_vocab, Props/C06Cf.lean); never a listed finding.
+        mixed = next(lf for lf in S.leaves(expr) if not single_world(lf))
+        return (f"estimand {expr} contains the term {mixed} that mixes variables of different worlds: it is a counterfactual "
+                "joint distribution, not an interventional term, so nothing has been identified"), "vocabulary"
     w = S.check_estimand(g, ev, expr, case.get("seed", 0), n_models=n_models)
     return (None, None) if w is None else (f"estimand {expr} differs from P(event): {w}", "value")
 
